@@ -42,7 +42,23 @@ def _pyequal_kept(v):
     len(json.loads(r["prev"][1:])) == len(json.loads(r["cconv"][1:])) for r in rows)
 
 
-MATCHERS = {"nested_pyequal_value_kept": _pyequal_kept}
+def _reflist_alt_text_reparsed(v):
+  """Changing a column to RefList / Attachments: where the conversion fails because a row id is too large
+  (>= 2**31), convert() returns the alt text '[2147483648]', but ReferenceListColumn.set ->
+  _clean_up_value parses any text that is a JSON list of positive integers back into a list, so the cell
+  stores the list (with the oversized id) instead of the alt text.  Recognised by: every failing row
+  stores a list token that holds an oversized integer ('U[...]' element) where the conversion is a text
+  token that starts with '['."""
+  case = v["case"]
+  if v["clause"] != "C23.cells" or not (case["to"].startswith("RefList:") or case["to"] == "Attachments"):
+    return False
+  rows = _rows_failing_cells(case)
+  return bool(rows) and all(
+    r["after"].startswith("L[") and any(e.startswith("U[") for e in json.loads(r["after"][1:])) and
+    r["cconv"].startswith("s[") for r in rows)
+
+
+MATCHERS = {"nested_pyequal_value_kept": _pyequal_kept, "reflist_alt_text_reparsed": _reflist_alt_text_reparsed}
 
 
 # ---------------------------------------------------------------------------------------------
@@ -218,7 +234,7 @@ def run(ctx):
     raise fnspec.tlc.MachineryError("TLC found %d distinct states (%d seeds) but wrote %d inputs" % (
       model["distinct"], seeds, len(inputs)))
   ctx.log("TLC enumerated %d inputs (%d distinct states) in %.1fs" % (len(inputs), model["distinct"], model["wall"]))
-  rnd = random_inputs(ctx.seed, 800 if ctx.quick else 10000)
+  rnd = random_inputs(ctx.seed, 600 if ctx.quick else 10000)
   todo = inputs + rnd
   # the worker builds one document per (from, two, vis): keep the groups together in the shards
   todo.sort(key=lambda i: (i["from"], i["two"], i["vis"], i["to"]))
